@@ -60,7 +60,16 @@ func numOK(class numClass, lowRes bool, orig, got float32) (bool, string) {
 				return false, fmt.Sprintf("exactly representable as a short %v number but came back as %v", k, ops.F32(got))
 			}
 		}
-		if math.Float32bits(orig)&3 == 0 && orig == orig {
+		// A value with its two low mantissa bits clear is exact in the 4-byte
+		// form. Where the encoder may pick a zero-to-one form it can still
+		// choose a 2-byte spelling that is a fraction of an ulp off (its
+		// exactness test is a rounded float32 product): inside "30-bit
+		// floats", so only the forms without that choice are held to exactness.
+		z2oChoice := false
+		for _, k := range kinds {
+			z2oChoice = z2oChoice || k == spec.ZeroToOne
+		}
+		if math.Float32bits(orig)&3 == 0 && orig == orig && !z2oChoice {
 			if ops.SameF32(orig, got) {
 				return true, ""
 			}
